@@ -11,6 +11,7 @@
 #include "interrogateFunctionWrapper.h"
 #include "cppInstance.h"
 #include "cppAttributeList.h"
+#include "cppCommentBlock.h"
 #include "interrogate.h"
 #include "c03_native_globals.h"
 #include <string>
@@ -42,8 +43,8 @@ bool CPPAttributeList::has_attribute(const std::string &name) const {
 struct Seen {
   int calls, index, flags, function, return_type, destructor, nparams;
   int pflags[NPMAX], ptype[NPMAX], pnamelen[NPMAX];
-  char pname[NPMAX], name0, uname0;
-  int namelen, unamelen;
+  char pname[NPMAX], name0, uname0, comment0;
+  int namelen, unamelen, commentlen;
 };
 static Seen g_seen;
 void InterrogateDatabase::add_wrapper(FunctionWrapperIndex index, const InterrogateFunctionWrapper &w) {
@@ -63,6 +64,8 @@ void InterrogateDatabase::add_wrapper(FunctionWrapperIndex index, const Interrog
     }
   g_seen.namelen = (int)w._name.size();
   g_seen.name0 = w._name.size() ? w._name[0] : 0;
+  g_seen.commentlen = (int)w._comment.size();
+  g_seen.comment0 = w._comment.size() ? w._comment[0] : 0;
   g_seen.unamelen = (int)w._unique_name.size();
   g_seen.uname0 = w._unique_name.size() ? w._unique_name[0] : 0;
 }
@@ -75,8 +78,14 @@ public:
   bool _str;
 };
 
-static void __attribute__((noinline)) init_instance(CPPInstance *f) {
-  f->_leading_comment = nullptr;
+static void __attribute__((noinline)) init_instance(CPPInstance *f, CPPCommentBlock *c) {
+  f->_leading_comment = c;
+}
+static void __attribute__((noinline)) init_comment(CPPCommentBlock *c, char ch, bool lead, bool trail) {
+  new (&c->_comment) std::string();
+  if (lead) c->_comment.push_back(' ');
+  c->_comment.push_back(ch);
+  if (trail) c->_comment.push_back('\n');
 }
 static void __attribute__((noinline)) init_db(InterrogateDatabase *db, int next) {
   db->_next_index = next;
@@ -95,7 +104,13 @@ static void __attribute__((noinline)) scenario(int n) {
   ParamIn in[NPMAX];
   // raw objects: only the fields make_wrapper_entry reads are initialised
   CPPInstance *f = (CPPInstance *)operator new(sizeof(CPPInstance));
-  init_instance(f);
+  // the comment attached to the declaration (or none): one non-blank character with optional surrounding blanks
+  bool has_comment = nondet_bool();
+  char cch = nondet_char();
+  ASSUME(cch != ' ' && !(cch >= 9 && cch <= 13));
+  CPPCommentBlock *cb = (CPPCommentBlock *)operator new(sizeof(CPPCommentBlock));
+  init_comment(cb, cch, nondet_bool(), nondet_bool());
+  init_instance(f, has_comment ? cb : nullptr);
   int first_index = nondet_int();
   ASSUME(first_index >= 1 && first_index < 1000000);
   g_db = (InterrogateDatabase *)operator new(sizeof(InterrogateDatabase));
@@ -141,6 +156,8 @@ static void __attribute__((noinline)) scenario(int n) {
   ASSERT(g_seen.function == function_index, "C05 wrapper records the function it belongs to");
   ASSERT(g_seen.namelen == 1 && g_seen.name0 == wn && g_seen.unamelen == 1 && g_seen.uname0 == un,
          "C05 wrapper records its wrapper name and unique name");
+  ASSERT(has_comment ? (g_seen.commentlen == 1 && g_seen.comment0 == cch) : g_seen.commentlen == 0,
+         "C05 the wrapper carries the comment attached to its declaration (blank-trimmed), or none");
   ASSERT(g_seen.nparams == n, "C05 wrapper has exactly the parameters of the callable variant");
   for (int i = 0; i < n; i++) {
     ASSERT(g_seen.pnamelen[i] == 1 && g_seen.pname[i] == in[i].name, "C05 parameter i carries the name of parameter i");
